@@ -18,7 +18,7 @@ one() {
     echo "$id NOAPPLY"; git -C /repo worktree remove --force $wt; return
   fi
   out=$tmp/$tag.txt; : > $out
-  for c in C01 C02 C03 C04 C05 C06 C07 C08 C09 C10 C11 C12 C13 C14 C15 C16 C17 C18 C19 C20; do
+  for c in ${CHECKS:-C01 C02 C03 C04 C05 C06 C07 C08 C09 C10 C11 C12 C13 C14 C15 C16 C17 C18 C19 C20}; do
     ( res=$(cd /verif && VERIF_EVIDENCE_DIR=$tmp/ev_$tag ./check $c --tier quick --repo $wt 2>&1); rc=$?
       rules=$(echo "$res" | grep -o "rule C[0-9]*-[A-Za-z0-9]*" | sort -u | tr '\n' ' ')
       echo "$c $rc $rules" >> $out ) &
